@@ -338,3 +338,15 @@ func VerifMarkHostDown(s *Session, ip string) {
 		}
 	}
 }
+
+// VerifStartPoolFill runs Session.startPoolFill for the host with the given address, as an UP event and
+// the reconnect tick for downed hosts do.
+func VerifStartPoolFill(s *Session, ip string) bool {
+	for _, h := range s.ring.allHosts() {
+		if h.ConnectAddress().String() == ip {
+			s.startPoolFill(h)
+			return true
+		}
+	}
+	return false
+}
